@@ -16,9 +16,16 @@ PID = "C13"
 NAMES = {0: "prog", 1: "pa", 2: "pa2", 3: "p_c3"}      # one name a prefix of another, digits, underscore
 USES = ["CLS", "PRINT A", "Z=INT(A)", "PLAY \"C\"", "SOUND 1,2", "HSCREEN 2", "HCIRCLE(1,2),3", "INPUT A", "Z$=INKEY$", "HPRINT(1,2),\"X\"",
         "LOCATE 1,2", "Z=VAL(A$)", "Z=INSTR(1,A$,\"A\")", "PALETTE 1,2", "HBUFF 1,10", "Z=JOYSTK(0)", "WIDTH 40", "Z$=STRING$(3,\"A\")"]
+USES += ["Z=INT(A)+VAL(A$)", "Z$=HEX$(3)+STR$(4)", "HPRINT(1,2),3", "PRINT A;INSTR(1,A$,\"A\")", "Z=BUTTON(0)+JOYSTK(1)+POINT(1,2)",
+         "IF INKEY$=\"A\" THEN SOUND 1,2 ELSE PLAY \"C\"", "CLS:LOCATE 1,2:ATTR 1,2", "FOR I=INT(A) TO VAL(A$):HSET(I,1,2):NEXT"]
 DECOYS = ["PRINT \"RUN ecb_play\"", "A$=\"procedure zz\"", "DATA RUN ecb_sound, PROCEDURE x", "REM RUN ecb_play", "'RUN ecb_hdraw(1)",
           "PRINT \": STRING<<>>\"", "DATA : STRING<<>>", "A$=\"RUN ecb_play\":B$=\"x\"", "PRINT \"A\";\"RUN ecb_cls\"", "REM : STRING<<>>",
           "DATA \"RUN ecb_hscreen\",RUN ecb_point"]
+
+
+def b09lex_text(c):
+    """the lines of a lexed case that mention the placeholder (diagnostics)"""
+    return [" ".join(t.get("o", t["v"]) if isinstance(t.get("o", t["v"]), str) else str(t["v"]) for t in l) for l in c["out"] if any(t["v"] == "<<>>" for t in l)][:3]
 
 
 def graphs(rep, wd, thorough, rng):
@@ -79,10 +86,10 @@ def main():
         if st not in dev:
             dev.append(st)
     rep.count("device_forms", len(dev))
-    subsets = [()] + [(u,) for u in USES] + [(d,) for d in (dev if thorough else dev[common.seed() % 2::2])] + gen.sample(rng, list(itertools.combinations(USES, 2)), 40 if thorough else 8) \
+    subsets = [()] + [(u,) for u in USES] + [(d,) for d in dev] + gen.sample(rng, list(itertools.combinations(USES, 2)), 40 if thorough else 8) \
         + gen.sample(rng, list(itertools.combinations(USES, 3)), 60 if thorough else 6)
     for k, sub in enumerate(subsets):
-        for size in ((32, 80) if thorough or k % 4 == 0 else (32,)):
+        for size in ((32, 80, 16) if thorough or k % 4 == 0 else ((32, 16, 80)[k % 3],)):
             plan.append((list(sub), size, rng.choice(["prog", "a_b", "x1", "Game"]), ""))
     for d in DECOYS:
         for size in (32, 80):
@@ -90,10 +97,11 @@ def main():
     # line numbers of one to five digits
     srcs = ["\n".join("%d %s" % ((10 * (i + 1), 12000 + 7 * i, i)[k % 3], s) for i, s in enumerate(stmts)) if stmts else "10 END"
             for k, (stmts, _, _, _) in enumerate(plan)]
-    res1 = common.run_real("w_convert", [{"src": s, "opts": {"output_dependencies": True, "procname": nm, "default_str_storage": sz}}
-                                         for s, (_, sz, nm, _) in zip(srcs, plan)])
-    res0 = common.run_real("w_convert", [{"src": s, "opts": {"output_dependencies": False, "default_str_storage": sz}}
-                                         for s, (_, sz, nm, _) in zip(srcs, plan)])
+    # (every fourth program without the standard prologue: its procedures are then reachable only through the program's own calls)
+    res1 = common.run_real("w_convert", [{"src": s, "opts": {"output_dependencies": True, "procname": nm, "default_str_storage": sz, "add_standard_prefix": i % 4 != 3}}
+                                         for i, (s, (_, sz, nm, _)) in enumerate(zip(srcs, plan))])
+    res0 = common.run_real("w_convert", [{"src": s, "opts": {"output_dependencies": False, "default_str_storage": sz, "add_standard_prefix": i % 4 != 3}}
+                                         for i, (s, (_, sz, nm, _)) in enumerate(zip(srcs, plan))])
     for s, (stmts, sz, nm, mentions), r1, r0 in zip(srcs, plan, res1, res0):
         if "out" not in r1 or "out" not in r0:
             rep.count("refused")
@@ -129,7 +137,8 @@ def main():
             elif k == 2:
                 out2 = "\nprocedure ".join([procs[0].replace("procedure ", "", 1)] if False else procs[:1] + [procs[2], procs[1]] + procs[3:])
             else:
-                out2 = out.replace(": STRING", ": STRING<<>>", 1) if ": STRING" in out else None
+                # (not in a program whose own literals spell the placeholder: the first ": STRING" may then be user text)
+                out2 = out.replace(": STRING", ": STRING<<>>", 1) if ": STRING" in out and "STRING<<>>" not in out else None
             if out2 and out2 != out:
                 picked.append(dict(c, out=b09lex.lex_text(out2, orig=True)))
         if len(picked) >= 24:
@@ -141,7 +150,8 @@ def main():
     rep.count("canaries", len(picked))
     rep.count("canaries_rejected", rej)
     if rej < len(picked):
-        raise common.MachineryError("canaries: %d of %d corrupted bundles were accepted" % (len(picked) - rej, len(picked)))
+        which = [(k % 4, b09lex_text(picked[k])) for k, v in enumerate(cv) if v["ok"]]
+        raise common.MachineryError("canaries: %d of %d corrupted bundles were accepted (kinds %r)" % (len(picked) - rej, len(picked), which))
     return rep.finish({"exhaustive": thorough, "graph_nodes": 4})
 
 
